@@ -117,18 +117,35 @@ pub fn brief(t: &T) -> String {
 }
 
 use bc_components::SymmetricKey;
-use crate::gen::{self, Gen, GenCfg, Route, M};
+use crate::gen::{self, GenCfg, Route, M};
 use crate::rng::Rng;
 
 /// One random envelope of the universe: model + real envelope built through a random API route.
 pub fn universe(rng: &mut Rng, cfg: GenCfg, case: u64) -> (M, Envelope) {
-    let m = {
-        let mut g = Gen::new(rng, cfg, case);
-        g.top()
-    };
+    let m = gen::model_for_case(rng, cfg, case);
     let route = if m.has_node_subject_node() { Route::Decode } else { *rng.pick(&[Route::Plain, Route::Shuffled, Route::ReplaceSubject, Route::Detour, Route::Decode]) };
     let e = gen::build(&m, route, rng);
     (m, e)
+}
+
+/// model for the deterministic sweep over special numbers (known values and integers around every
+/// table-size / width boundary): index i of `adv::special_numbers()`
+pub fn special_number_model(i: usize) -> M {
+    let sp = crate::adv::special_numbers();
+    let n = sp[i % sp.len()];
+    let other = sp[(i * 7 + 3) % sp.len()];
+    M::Node(
+        Box::new(M::Known(n)),
+        vec![
+            M::Assertion(Box::new(M::Known(n)), Box::new(M::Leaf(crate::spec::Item::UInt(n)))),
+            M::Assertion(Box::new(M::Known(other)), Box::new(M::Known(n))),
+            M::Assertion(Box::new(M::Leaf(crate::spec::Item::NInt(n))), Box::new(M::Wrapped(Box::new(M::Known(n))))),
+        ],
+    )
+}
+
+pub fn special_numbers_len() -> u64 {
+    crate::adv::special_numbers().len() as u64
 }
 
 pub fn cfg_for(ctx: &Ctx, case: u64) -> GenCfg {
